@@ -102,6 +102,9 @@ type c31Case struct {
 	Flow     string     `json:"flow"` // create | realloc | remap
 	Delta    *wlRequest `json:"realloc_delta,omitempty"`
 	FailFirstUpdate bool `json:"daemon_fails_first_update,omitempty"` // the first update is answered with HTTP 500 and then repeated
+	// CreateOpts: which of the other create options accompany the allocation (they must not change how it is enforced):
+	// "" | runtime:<name> | raw-misc | privileged | lambda-stdin | net-host | sysctl-dns | debug-restart
+	CreateOpts string `json:"other_create_options,omitempty"`
 	Alloc    string     `json:"allocation,omitempty"`
 	Engine   string     `json:"engine_params,omitempty"`
 	Applied  string     `json:"applied_by_engine,omitempty"`
@@ -275,7 +278,25 @@ func TestC31(t *testing.T) {
 			rec.Count("memory_below_engine_minimum_skipped", 1)
 			return
 		}
-		created, err := eng.VirtualizationCreate(ctx, &enginetypes.VirtualizationCreateOptions{Name: "app_web_x", Image: "img", EngineParams: resourcetypes.Resources{"cpumem": resourcetypes.RawParams(resp.EnginesParams[0])}, Labels: map[string]string{}})
+		copts := &enginetypes.VirtualizationCreateOptions{Name: "app_web_x", Image: "img", EngineParams: resourcetypes.Resources{"cpumem": resourcetypes.RawParams(resp.EnginesParams[0])}, Labels: map[string]string{}}
+		switch {
+		case strings.HasPrefix(c.CreateOpts, "runtime:"):
+			copts.RawArgs = []byte(fmt.Sprintf(`{"runtime":%q}`, strings.TrimPrefix(c.CreateOpts, "runtime:")))
+		case c.CreateOpts == "raw-misc":
+			copts.RawArgs = []byte(`{"pid_mod":"host","cap_add":["SYS_ADMIN"],"cap_drop":["MKNOD"],"storage_opt":{"size":"10G"},"ulimits":[{"Name":"nofile","Hard":1024,"Soft":512}]}`)
+		case c.CreateOpts == "privileged":
+			copts.Privileged, copts.User = true, "root"
+		case c.CreateOpts == "lambda-stdin":
+			copts.Lambda, copts.Stdin, copts.Cmd = true, true, []string{"sh"}
+		case c.CreateOpts == "net-host":
+			copts.Networks, copts.Publish = map[string]string{"host": ""}, []string{"80"}
+		case c.CreateOpts == "sysctl-dns":
+			copts.Sysctl, copts.DNS, copts.Hosts, copts.Env = map[string]string{"net.core.somaxconn": "1024"}, []string{"8.8.8.8"}, []string{"a:1.2.3.4"}, []string{"A=1"}
+		case c.CreateOpts == "debug-restart":
+			copts.Debug, copts.Restart, copts.LogType = true, "always", "journald"
+		}
+		rec.Count("create_options/"+map[bool]string{true: "plain", false: c.CreateOpts}[c.CreateOpts == ""], 1)
+		created, err := eng.VirtualizationCreate(ctx, copts)
 		if err != nil {
 			rec.Violation("docker/create/engine-refuses-allocation", fmt.Sprintf("VirtualizationCreate refused the plugin's engine params %v: %v", resp.EnginesParams[0], err), c)
 			return
@@ -415,6 +436,9 @@ func TestC31(t *testing.T) {
 			}
 			c.Delta = &d
 			c.FailFirstUpdate = r.Intn(4) == 0
+		}
+		if i%3 == 0 { // a third of the allocations come with other create options
+			c.CreateOpts = []string{"runtime:runc", "runtime:kata-runtime", "runtime:runsc", "runtime:nvidia", "runtime:sysbox-runc", "raw-misc", "privileged", "lambda-stdin", "net-host", "sysctl-dns", "debug-restart"}[(i/3)%11]
 		}
 		run(c)
 	}
